@@ -73,14 +73,15 @@ Theorem C07_moves_reach : forall cfg g ws mpg cap st0 fuel mn st orc st',
 Proof. exact fm_moves_reach. Qed.
 
 (* fm_gain_invariant: the stored gain of a free vertex is its true gain (sum over its row of
-   +-w), it indexes the gain table in range, and a vertex sits only in the bucket of its gain *)
+   +-w), it indexes the gain table in range ([tbl_idx] = the bounds check of the slice of
+   2*mpg+1 buckets), and a vertex sits only in the bucket of its gain *)
 Theorem C07_gain_invariant : forall dbg g ws mpg cap p_in p v2g t st,
   pass_setting g ws mpg cap p_in p v2g t ->
   pass_reach dbg g ws mpg cap (pass_state0 ws p v2g t (edge_cut g p)) st ->
   (forall v gv, nth_opt (s_v2g st) v = Some (Some gv) ->
      gv = row_gain (pfun (s_p st)) v (rowof g v)
-     /\ exists i, tbl_idx mpg gv = Some i /\ (i < length (s_g2v st))%nat)
-  /\ (forall i v, In v (nth i (s_g2v st) []) -> nth_opt (s_v2g st) v = Some (Some (Z.of_nat i - mpg))).
+     /\ tbl_idx mpg gv = Some gv)
+  /\ (forall k v, In v (tget (s_g2v st) k) -> nth_opt (s_v2g st) v = Some (Some k)).
 Proof. exact fm_gain_invariant. Qed.
 Print Assumptions C07_gain_invariant.
 
